@@ -16,6 +16,7 @@ EXPLANATION = (
     "by the name server exactly as given; for every field whose truthiness the "
     "printer uses to choose the text form the parser rejects the falsy value; the name server stores text and re-parses on lookup. "
     'Also decided: a blank PYROMETA tag set is rejected; tags are joined with the separator they are split on; the sqlite storage writes the given uri on every path. '
+    'Also decided (round 10): The wire form of a URI/Proxy/Daemon carries __getstate__() unchanged; the parser stores the object part exactly as matched; the broadcast responder and locate_ns use one codec; set_metadata rewrites an entry under the lock hold it read it in (shared from C15). '
     'Also decided (round 9): lookup builds the returned URI from the entry read in that call, not from state kept on the name server. '
 )
 
